@@ -127,6 +127,49 @@ Proof.
   split; [apply declared_unpack_total; exact Hin|apply declared_reads_newer; exact Hin].
 Qed.
 
+(* ---- known class pathbuf-non-utf8 (known_findings.txt) ------------------------------------------
+   prototk supports PathBuf as the native type of the field type `string` (scalar StringPath):
+   packing writes the path's OS bytes, unpacking goes through string::unpack, which insists on
+   UTF-8.  val_native / sval_native are ALL values the Rust types hold; val_ok / sval_ok (the
+   hypothesis of the theorems above) exclude exactly the class: a StringPath field whose bytes are
+   not UTF-8. *)
+Definition pathbuf_known (s : scalar) (v : sval) : bool := sval_native s v && negb (sval_ok s v).
+Definition msg_known (m : msg) (v : val) : bool := val_native m v && negb (val_ok m v).
+
+Theorem C15_pathbuf_class_is_narrow : forall s v, pathbuf_known s v = true ->
+  s = StringPath /\ exists bs, v = SB bs /\ bytes_ok bs /\ utf8_ok bs = false.
+Proof.
+  intros s v H. unfold pathbuf_known in H.
+  destruct s; try (cbn [sval_native] in H; destruct (sval_ok _ v); discriminate).
+  destruct v as [z|bs]; [discriminate|]. split; [reflexivity|]. exists bs. split; [reflexivity|].
+  cbn [sval_native sval_ok] in H. destruct (bytes_okb bs) eqn:Eb; [|discriminate].
+  destruct (len bs <? W64); [|discriminate]. cbn [andb negb] in H. split; [apply bytes_okb_iff; exact Eb|].
+  destruct (utf8_ok bs); [discriminate|reflexivity].
+Qed.
+
+(* struct P { #[prototk(1, string)] p: PathBuf } with p = "a\xff": packs to 0a 02 61 ff, which does
+   not unpack *)
+Theorem C15_pathbuf_refuted : exists m v,
+  msg_wf m = true /\ val_native m v = true /\ msg_known m v = true /\
+  msg_to_vec m v = Ok [10; 2; 97; 255] /\ msg_unpack m [10; 2; 97; 255] = Err EStringEncoding.
+Proof.
+  exists (MStruct (FCons 1 CPlain (TSc StringPath) FNil)), (VL [VB [97; 255]]). vm_compute. repeat split.
+Qed.
+
+Theorem C15_pathbuf_outside_known :
+  (forall s v rest, sval_native s v = true -> pathbuf_known s v = false -> bytes_ok rest ->
+     unpack_scalar s (pack_scalar s v ++ rest) = Ok (v, rest)) /\
+  (forall m v, msg_wf m = true -> val_native m v = true -> msg_known m v = false -> msg_pack_sz m v < W64 ->
+     msg_to_vec m v = Ok (ref_msg m v) /\ len (ref_msg m v) = msg_pack_sz m v /\
+     msg_unpack m (ref_msg m v) = Ok (v, [])).
+Proof.
+  split.
+  - intros s v rest Hn Hk Hr. unfold pathbuf_known in Hk. rewrite Hn in Hk. cbn [andb] in Hk.
+    apply negb_false_iff in Hk. apply scalar_roundtrip; assumption.
+  - intros m v Hw Hn Hk Hs. unfold msg_known in Hk. rewrite Hn in Hk. cbn [andb] in Hk.
+    apply negb_false_iff in Hk. apply C15_message_roundtrip; assumption.
+Qed.
+
 (* ---- known class recursive-type-depth (known_findings.txt) ------------------------------------
    A message type that contains itself (struct Tree { kids: Vec<Tree>, v: u64 }) is not a shape of
    the model: the real decoder recurses once per nesting level of the INPUT and a deep input
